@@ -170,6 +170,78 @@ func (p *Prog) recoverSiteScan(pkgSuffixes []string) []structFinding {
 	return out
 }
 
+// goStmtScan (C13): every `go` statement (and every `select`) of the listed
+// packages sits in a function whose contract records why the started goroutine
+// cannot make the result depend on scheduling (`note goroutine: <reason>`).
+// The only ones on the compile / generate path of the pinned tree are the two
+// scanner starts in parse.lex / parse.lexExpr: one producer, one consumer, an
+// unbuffered channel - the token order is the scanner's emission order.
+func (p *Prog) goStmtScan(pkgSuffixes []string) []structFinding {
+	var out []structFinding
+	var keys []string
+	for k := range p.funcs {
+		keys = append(keys, k)
+	}
+	sort.Strings(keys)
+	for _, k := range keys {
+		fn := p.funcs[k]
+		if !p.inRepo(fn) || fn.Blocks == nil || fn.Synthetic != "" {
+			continue
+		}
+		pk := fn.Pkg
+		if pk == nil && fn.Parent() != nil {
+			pk = fn.Parent().Pkg
+		}
+		if pk == nil {
+			continue
+		}
+		match := false
+		for _, s := range pkgSuffixes {
+			if pk.Pkg.Path() == repoModule+s {
+				match = true
+			}
+		}
+		if !match {
+			continue
+		}
+		top := fn
+		for top.Parent() != nil {
+			top = top.Parent()
+		}
+		nsel := 0
+		for _, b := range fn.Blocks {
+			for _, ins := range b.Instrs {
+				what, tag := "", ""
+				switch x := ins.(type) {
+				case *ssa.Go:
+					tag = p.calleeKey(fn, &x.Call)
+					what = "starts a goroutine running " + tag
+				case *ssa.Select:
+					tag = fmt.Sprintf("select#%d", nsel)
+					nsel++
+					what = "selects over channels"
+				}
+				if what == "" {
+					continue
+				}
+				ok := false
+				for _, kk := range []string{k, p.contractKey(top)} {
+					if c := p.specs.Contracts[kk]; c != nil {
+						for _, note := range c.Notes {
+							if strings.HasPrefix(note, "goroutine "+tag+":") {
+								ok = true
+							}
+						}
+					}
+				}
+				out = append(out, structFinding{name: p.fnDisplay(fn) + "#goroutine.covered:" + tag, pos: p.fset.Position(ins.Pos()).String(),
+					src: "the function " + what + "; its contract must record (note goroutine " + tag + ": ...) why scheduling cannot influence the result", ok: ok})
+			}
+		}
+	}
+	return out
+}
+
 func printStructFindings(title string, fs []structFinding) {
 	fmt.Println(title)
 	for _, f := range fs {
